@@ -1,6 +1,6 @@
 // Evidence files (/verif/evidence/<id>.json) and replay files (/verif/replays/<id>/...).
 use crate::engine::{RunCfg, Stats, Violation};
-use crate::findings::{verif_dir, Findings};
+use crate::findings::{verif_out_dir as verif_dir, Findings};
 use serde_json::{json, Map, Value};
 
 pub struct Report {
